@@ -130,7 +130,7 @@ func (g *irGenCtx) genValidator(ty string) string {
 		pool = []string{"required", "email", "uuid", "ip", "ipv4", "ipv6", "hostname", "date", "datetime", "min=2", "max=10", "len=3", "pattern=^a+$", "oneof=a b c", "enum=a|b", "pattern=^[a-z]+=[a-z]+$", "oneof=k=v x=y", "enum=a=1|b=2",
 			// rules the spec converters do not read, with characters a template engine escapes: all five routers must hand
 			// go-playground the SAME tag text
-			"excludesall=<>", "containsany=&'", "startsnotwith=\"q"}
+			"excludesall=<>", "containsany=&'", "startsnotwith=\"q", "pattern=^\\d+$"}
 	case base == "bool":
 		pool = []string{"required"}
 	case base == "float32" || base == "float64":
